@@ -127,7 +127,7 @@ func main() {
 	r := ev.Start("C05")
 	defer r.RecoverMain()
 	defer world.Cleanup()
-	r.SetBudget(ev.Pick(r, 240*time.Second, 60*time.Minute))
+	r.SetBudget(ev.Pick(r, 480*time.Second, 60*time.Minute))
 	r.Assume("monitor: after every bucket mutation the join (per key the highest timestamp) over the newest snapshot of every instance must not lose a key or move it to an older timestamp; sweeper disabled",
 		"part (b): the search starts from a scripted non-initial state: instance c wrote its key and uploaded once, then goes silent; instances a and b have written their keys",
 		"part (b): the cleaners' hidden first-seen bookkeeping is mirrored by the harness for state deduplication only")
